@@ -18,9 +18,7 @@ import (
 	"context"
 	"encoding/json"
 	"fmt"
-	"os"
 	"runtime"
-	"runtime/pprof"
 	"strings"
 	"sync"
 	"sync/atomic"
@@ -28,6 +26,7 @@ import (
 
 	"perkeep.org/pkg/blob"
 	"perkeep.org/pkg/jsonsign"
+	"perkeep.org/pkg/jsonsign/signhandler"
 	"perkeep.org/pkg/schema"
 
 	"verif.local/harness/hw"
@@ -94,7 +93,7 @@ func (c *checker) checkSigTime(sigClass, id string, packet []byte, want time.Tim
 }
 
 // spinBudget bounds the busy-wait of a caller at the start barrier (iterations, not time).
-var spinBudget = 2000000
+const spinBudget = 2000000
 
 // ---- shared signing objects
 
@@ -107,6 +106,8 @@ const (
 	apiTemplate   concAPI = "jsonsign.SignRequest-from-template"
 	apiTemplRing  concAPI = "jsonsign.SignRequest-from-template(SecretKeyringPath)"
 	apiHWSigner   concAPI = "hw.Signer.SignJSON"
+	apiHelperPost concAPI = "signhandler:POST camli/sig/sign"
+	apiHelperSign concAPI = "signhandler.Handler.Sign(builder)"
 	concGroupsAll         = 6
 )
 
@@ -117,6 +118,7 @@ type concCase struct {
 	key     *keyInfo
 	signer  *schema.Signer        // for the schema.* APIs
 	tmpl    *jsonsign.SignRequest // template to COPY for the jsonsign APIs (never signed through directly)
+	helper  *signhandler.Handler  // the server's signing helper (signhandler APIs)
 	J       string                // unsigned JSON (raw APIs)
 	bb      *schema.Builder       // builder (builder APIs); private to this caller
 	fields  map[string]string     // fields this caller put into the builder
@@ -152,10 +154,11 @@ type concEnv struct {
 	signers map[int]*schema.Signer // by key index
 	tmpl    map[int]*jsonsign.SignRequest
 	tmplR   map[int]*jsonsign.SignRequest
+	helpers map[int]*signhandler.Handler
 }
 
 func (c *checker) concSetup() (*concEnv, error) {
-	e := &concEnv{signers: map[int]*schema.Signer{}, tmpl: map[int]*jsonsign.SignRequest{}, tmplR: map[int]*jsonsign.SignRequest{}}
+	e := &concEnv{signers: map[int]*schema.Signer{}, tmpl: map[int]*jsonsign.SignRequest{}, tmplR: map[int]*jsonsign.SignRequest{}, helpers: map[int]*signhandler.Handler{}}
 	for _, k := range c.keys {
 		// key1: private key handed over as an entity; key2: as the name of a secret ring file
 		var src any = k.ring
@@ -177,6 +180,15 @@ func (c *checker) concSetup() (*concEnv, error) {
 			EntityFetcher: &jsonsign.CachingEntityFetcher{Fetcher: &jsonsign.FileEntityFetcher{File: k.ring}},
 		}
 		e.tmplR[k.idx] = &jsonsign.SignRequest{Fetcher: c.fetcher, ServerMode: true, SecretKeyringPath: k.ring}
+		h, err := c.sigHandler(k)
+		if err != nil {
+			return nil, fmt.Errorf("signing helper for %s: %v", k.name, err)
+		}
+		sh, ok := h.(*signhandler.Handler)
+		if !ok {
+			return nil, fmt.Errorf("signing helper is a %T", h)
+		}
+		e.helpers[k.idx] = sh
 	}
 	return e, nil
 }
@@ -188,22 +200,11 @@ func (c *checker) concurrentSigning() {
 		return
 	}
 	workers := min(8, runtime.GOMAXPROCS(0))
-	if v := os.Getenv("VERIF_C16_W"); v != "" {
-		fmt.Sscan(v, &workers)
-	}
-	if v := os.Getenv("VERIF_C16_SPIN"); v != "" {
-		fmt.Sscan(v, &spinBudget)
-	}
 	if workers < 2 {
 		r.Inconclusive("the concurrent signing family needs at least 2 CPUs to overlap signing calls")
 		return
 	}
 	rounds := r.Pick(1024, 8192)
-	if pf := os.Getenv("VERIF_C16_PROF"); pf != "" {
-		f, _ := os.Create(pf)
-		pprof.StartCPUProfile(f)
-		defer pprof.StopCPUProfile()
-	}
 	env, err := c.concSetup()
 	if err != nil {
 		r.Inconclusive("concurrent signing family: " + err.Error())
@@ -213,6 +214,7 @@ func (c *checker) concurrentSigning() {
 	k2 := func(int) *keyInfo { return c.keys[1] }
 	both := func(w int) *keyInfo { return c.keys[w%2] }
 	pairs := func(w int) *keyInfo { return c.keys[(w/2)%2] }
+	both4 := func(w int) *keyInfo { return c.keys[(w/4)%2] }
 	schemaAPIs := []concAPI{apiSignJSON, apiSignJSON, apiSignAt, apiSignJSON, apiSign, apiSignJSON, apiSignAt, apiSignJSON}
 	onlyJSON := []concAPI{apiSignJSON}
 	groups := []concGroup{
@@ -224,7 +226,11 @@ func (c *checker) concurrentSigning() {
 		{"signrequest-template-copies", []concAPI{apiTemplate}, both},
 		{"one-schema-signer(entity)/SignJSON", onlyJSON, k1},
 		{"signrequest-template-copies(SecretKeyringPath)+hw-signer", []concAPI{apiTemplRing, apiHWSigner}, pairs},
+		// the server's signing helper: its Signer() is the one *schema.Signer that UI, importers and
+		// share handler use, next to its HTTP sign endpoint and its builder entry point
+		{"signing-helper/Signer()+sign-endpoint+Sign(builder)", []concAPI{apiSignJSON, apiHelperPost, apiSignAt, apiHelperSign}, both4},
 	}
+	helperGroup := len(groups) - 1
 	rng := r.Rand("concurrent-signing")
 	g := &docGen{rng: rng}
 	pn := hw.RawBlob("verif C16 concurrent family permanode").Ref
@@ -243,6 +249,10 @@ func (c *checker) concurrentSigning() {
 				signer: env.signers[k.idx],
 				// a time no other caller of this round (or of the neighbouring rounds) uses
 				sigTime: hw.T(years[(round+w)%len(years)], w*1000003+round*7+rng.Intn(5))}
+			if round%len(groups) == helperGroup {
+				cc.helper = env.helpers[k.idx]
+				cc.signer = cc.helper.Signer()
+			}
 			switch cc.api {
 			case apiTemplate:
 				cc.tmpl = env.tmpl[k.idx]
@@ -251,7 +261,7 @@ func (c *checker) concurrentSigning() {
 			}
 			tag := fmt.Sprintf("r%06d-w%02d", round, w)
 			switch cc.api {
-			case apiSignAt, apiSign:
+			case apiSignAt, apiSign, apiHelperSign:
 				cc.fields = map[string]string{"camliType": "claim", "permaNode": pn.String(), "attribute": "tag", "value": tag}
 				switch (round + w) % 4 {
 				case 0:
@@ -269,7 +279,7 @@ func (c *checker) concurrentSigning() {
 				}
 				cc.fields["camliSigner"] = k.ref
 				cc.tag = tag
-				cc.noTime = cc.api == apiSign
+				cc.noTime = cc.api != apiSignAt
 			default:
 				if sameLen {
 					cc.J = fmt.Sprintf(`{"camliVersion": 1, "camliSigner": %q, "camliType": "claim", "who": %q}`, k.ref, tag)
@@ -281,10 +291,10 @@ func (c *checker) concurrentSigning() {
 					t := strings.TrimRight(j, " \t\r\n")
 					cc.J = t[:len(t)-1] + `,"verifCaller":"` + tag + `"}` + j[len(t):]
 				}
+				cc.noTime = cc.api == apiHelperPost // the endpoint takes no signature time
 			}
 			cases[w] = cc
 		}
-
 		return cases
 	}
 
@@ -403,7 +413,7 @@ func (c *checker) concurrentSigning() {
 			names = append(names, g.name)
 		}
 		r.Require("concurrent_sign_groups", names...)
-		r.Require("concurrent_sign_apis", string(apiSignJSON), string(apiSignAt), string(apiSign), string(apiTemplate), string(apiTemplRing), string(apiHWSigner))
+		r.Require("concurrent_sign_apis", string(apiSignJSON), string(apiSignAt), string(apiSign), string(apiTemplate), string(apiTemplRing), string(apiHWSigner), string(apiHelperPost), string(apiHelperSign))
 	}
 }
 
@@ -423,6 +433,15 @@ func (cc *concCase) sign(ctx context.Context) {
 		cc.signed, cc.err = sr.Sign(ctx)
 	case apiHWSigner:
 		cc.signed, cc.err = cc.key.s.SignJSON(cc.J, cc.sigTime)
+	case apiHelperPost:
+		code, body := sigPost(cc.helper, "camli/sig/sign", "json", cc.J)
+		if code != 200 {
+			cc.err = fmt.Errorf("HTTP %d: %s", code, truncateStr(body, 200))
+		} else {
+			cc.signed = body
+		}
+	case apiHelperSign:
+		cc.signed, cc.err = cc.helper.Sign(ctx, cc.bb)
 	}
 }
 
